@@ -236,6 +236,9 @@ func getCommit(
 			return
 		} else {
 			var tmpSum []byte
+			if branch.Delimiter != 0 {
+				delim = branch.Delimiter
+			}
 			tmpSum, err = ensureTempCommit(cmd, db, rs, c, branchName, branch.File, branch.PrimaryKey, quiet, delim)
 			if err != nil {
 				return
